@@ -6,7 +6,7 @@
 From Coq Require Import ZArith List Bool String.
 From MxlBase Require Import ListX.
 From Core Require Import Sort GenSortFacts FnLib Model Cache Query.
-From Edit Require Import GenEditFacts ExpectedFacts ModelSM SMProofs SMPin.
+From Edit Require Import GenEditFacts ExpectedFacts ModelSM SMProofs Alias AliasProofs SMPin.
 Import ListNotations.
 
 Theorem C03_facts_pinned :
@@ -92,3 +92,118 @@ Example C03_nonvacuous_batch_stoich_arity :
      = Answer (APairs [(12%N, 1%Z); (16%N, 3%Z)]).
 Proof. cbv zeta. repeat split; vm_compute; reflexivity. Qed.
 Print Assumptions C03_nonvacuous_batch_stoich_arity.
+
+(** ---- second deepening round: edits depend on the content only, queries leave no trace, containers that
+    cross the API are values ------------------------------------------------------------------------------- *)
+
+(** what the extractor found about objects crossing the API (ExpectedFacts.v, two switches: [Aliased] in the snapshot,
+    [Copied] after fixes/C03-containers-are-values.diff): get_parameter_values / get_initial_conditions, the
+    mutators given args= / outputs= / stoichiometries= (the recognised texts of add_/update_reaction include
+    the construction of an own stoichiometry dict, cf. seeded/C03-5); and get_stoichiometries(_of_variable)
+    fill in the computed coefficients on a deep copy of the cached table (cf. seeded/C03-6) *)
+Theorem C03_alias_facts_pinned :
+  (forall g : getter, getter_form g = C03_expected_getters)
+  /\ (forall a : argsite, input_form a = C03_expected_inputs)
+  /\ stoich_queries_copy = true.
+Proof. split; [intros []; vm_compute; reflexivity|split; [intros []; vm_compute; reflexivity|vm_compute; reflexivity]]. Qed.
+Print Assumptions C03_alias_facts_pinned.
+
+(** after ANY history, what the next step (single-item edit, batch edit, query) does -- its outcome, the
+    registry and the content it leaves -- is the same whether a query has populated the cache or not: it is a
+    function of the content alone (scale_parameter(s) on an assigned parameter READS the cache; cf. seeded/C03-4) *)
+Theorem C03_edit_depends_on_content_only :
+  forall (h : list op) (o : op),
+    snd (step (run_history h) o) = snd (step (fresh (run_history h)) o) /\
+    s_ids (fst (step (run_history h) o)) = s_ids (fst (step (fresh (run_history h)) o)) /\
+    s_m (fst (step (run_history h) o)) = s_m (fst (step (fresh (run_history h)) o)).
+Proof. exact (step_independent_of_cache (all_invalidate_from_pin C03_facts_pinned)). Qed.
+Print Assumptions C03_edit_depends_on_content_only.
+
+(** queries leave no trace: deleting every query from a history changes neither the registry nor the content
+    nor the answer to any later query *)
+Theorem C03_queries_leave_no_trace :
+  forall h : list op,
+    s_ids (run_history h) = s_ids (run_history (edits_of h)) /\
+    s_m (run_history h) = s_m (run_history (edits_of h)) /\
+    forall q, snd (ask (run_history h) q) = snd (ask (run_history (edits_of h)) q).
+Proof. exact (queries_leave_no_trace (all_invalidate_from_pin C03_facts_pinned)). Qed.
+Print Assumptions C03_queries_leave_no_trace.
+
+(** in particular a query does not change what a later query answers *)
+Theorem C03_query_keeps_later_answers :
+  forall (h : list op) (q q' : query),
+    snd (ask (fst (ask (run_history h) q)) q') = snd (ask (run_history h) q').
+Proof. exact (query_keeps_later_answers (all_invalidate_from_pin C03_facts_pinned)). Qed.
+Print Assumptions C03_query_keeps_later_answers.
+
+(** FULL STATEMENT (containers cross the API as copies, [Copied] -- the tree after
+    fixes/C03-containers-are-values.diff): in histories extended by the caller's own writes to objects it
+    exchanged with the model (Alias.v: the dict get_initial_conditions / get_parameter_values returned, the
+    list passed as args=), those writes are unobservable: the state is exactly that of the method calls the
+    history contains, and every query answers as a freshly built model with the same content.
+    C03_alias_facts_pinned says which form the current tree has. *)
+Theorem C03_exchanged_containers_are_values :
+  forall (xh : list xop),
+    xrun Copied Copied xh = run_history (ops_of xh) /\
+    forall q, snd (ask (xrun Copied Copied xh) q) = snd (ask (fresh (xrun Copied Copied xh)) q).
+Proof. exact (exchanged_values (all_invalidate_from_pin C03_facts_pinned)). Qed.
+Print Assumptions C03_exchanged_containers_are_values.
+
+(** PARTIAL, for the tree as it is ([Aliased], recorded findings C03-query-results-alias-cache and
+    C03-mutators-keep-caller-lists): whatever the modes, as long as the caller never writes to an exchanged
+    object the extended history IS the plain one, so C03_history_equals_fresh etc. apply.  Missing w.r.t. the
+    full statement: histories with such writes -- see the two [_refuted] witnesses. *)
+Theorem C03_exchanged_containers_are_values_partial :
+  forall (gm im : alias_mode) (h : list op) (q : query),
+    xrun gm im (map Op h) = run_history h /\
+    snd (ask (xrun gm im (map Op h)) q) = snd (ask (fresh (xrun gm im (map Op h))) q).
+Proof. exact (exchanged_values_partial (all_invalidate_from_pin C03_facts_pinned)). Qed.
+Print Assumptions C03_exchanged_containers_are_values_partial.
+
+(** REFUTED for getters that return the cache's own dict: add_variable(12, 1); d = get_initial_conditions();
+    d[12] = 99 -- the content is untouched, yet get_initial_conditions answers 99, a fresh model 1 *)
+Theorem C03_getters_alias_cache_refuted :
+  exists (xh : list xop) (q : query),
+    snd (ask (xrun Aliased Copied xh) q) <> snd (ask (fresh (xrun Aliased Copied xh)) q) /\
+    s_m (xrun Aliased Copied xh) = s_m (run_history (ops_of xh)) /\
+    snd (ask (xrun Aliased Copied xh) q) = Answer (APairs [(12%N, 99%Z)]) /\
+    snd (ask (fresh (xrun Aliased Copied xh)) q) = Answer (APairs [(12%N, 1%Z)]).
+Proof. exact getters_alias_refuted. Qed.
+Print Assumptions C03_getters_alias_cache_refuted.
+
+(** REFUTED for mutators that keep the caller's list: add_derived(13, id, args=L) with L = [11]; get_args();
+    L[0] = 12 -- the content changed without any edit and the memoised answer (13 = 2) is stale (fresh: 13 = 5) *)
+Theorem C03_mutators_keep_lists_refuted :
+  exists (xh : list xop) (q : query),
+    snd (ask (xrun Copied Aliased xh) q) <> snd (ask (fresh (xrun Copied Aliased xh)) q) /\
+    s_m (xrun Copied Aliased xh) <> s_m (run_history (ops_of xh)) /\
+    snd (ask (xrun Copied Aliased xh) q) = Answer (APairs [(0%N, 0%Z); (11%N, 2%Z); (12%N, 5%Z); (13%N, 2%Z)]) /\
+    snd (ask (fresh (xrun Copied Aliased xh)) q) = Answer (APairs [(0%N, 0%Z); (11%N, 2%Z); (12%N, 5%Z); (13%N, 5%Z)]).
+Proof. exact inputs_alias_refuted. Qed.
+Print Assumptions C03_mutators_keep_lists_refuted.
+
+(** non-vacuity: (1) k11 = 2, k17 = initial assignment k11 * k11, a query, scale_parameters({11: 2, 17: 3}): k17
+    becomes 3 * (4 * 4) = 48 -- scaled from the value the EARLIER entry of the same batch left behind -- with and
+    without the query (seeded/C03-4 gave 12 after a query); (2) a computed coefficient over a variable:
+    get_stoichiometries for another state, then the right hand side is that of the fresh model (seeded/C03-6);
+    (3) the two refutation histories run with copies: the caller's writes change nothing *)
+Example C03_nonvacuous_round2 :
+  let pre := [Mut (AddPar 11%N (Plain 2%Z)); Mut (AddPar 17%N (IA 4%N [11%N; 11%N]))] in
+  let sc := Bat (ScalePars [(11%N, 2%Z); (17%N, 3%Z)]) in
+  m_par (s_m (run_history (pre ++ [Ask QParVals; sc]))) = [(11%N, Plain 4%Z); (17%N, Plain 48%Z)]
+  /\ m_par (s_m (run_history (pre ++ [sc]))) = [(11%N, Plain 4%Z); (17%N, Plain 48%Z)]
+  /\ (let h := [Mut (AddVar 12%N (Plain 2%Z)); Mut (AddVar 16%N (Plain 1%Z)); Mut (AddPar 11%N (Plain 2%Z));
+                Mut (AddRxn 14%N 4%N [12%N; 11%N] [(12%N, CStat (-1)%Z); (16%N, CDyn 6%N [12%N])])] in
+      snd (ask (run_history h) (QStoich (Some [(12%N, (-2)%Z); (16%N, 1%Z)]) 1%Z))
+      = Answer (ATable [(12%N, [(14%N, (-1)%Z)]); (16%N, [(14%N, 4%Z)])])
+      /\ snd (ask (run_history (h ++ [Ask (QStoich (Some [(12%N, (-2)%Z); (16%N, 1%Z)]) 1%Z)])) (QRhs None 0%Z))
+         = Answer (APairs [(12%N, (-4)%Z); (16%N, 16%Z)])
+      /\ snd (ask (run_history h) (QRhs None 0%Z)) = Answer (APairs [(12%N, (-4)%Z); (16%N, 16%Z)]))
+  /\ snd (ask (xrun Copied Copied [Op (Mut (AddVar 12%N (Plain 1%Z))); Poke (PokeIc 12%N 99%Z)]) QIc)
+     = Answer (APairs [(12%N, 1%Z)])
+  /\ snd (ask (xrun Copied Copied [Op (Mut (AddPar 11%N (Plain 2%Z))); Op (Mut (AddPar 12%N (Plain 5%Z)));
+                                    Op (Mut (AddDer 13%N 0%N [11%N])); Op (Ask (QArgs None 0%Z));
+                                    Poke (PokeDerArgs 13%N [12%N])]) (QArgs None 0%Z))
+     = Answer (APairs [(0%N, 0%Z); (11%N, 2%Z); (12%N, 5%Z); (13%N, 2%Z)]).
+Proof. cbv zeta. repeat split; vm_compute; reflexivity. Qed.
+Print Assumptions C03_nonvacuous_round2.
